@@ -576,6 +576,9 @@ def run(tier, seed, replay_file=None):
     for x in cres:
         if not x["ok"]:
             o.violations.append(Violation(clause="logic_cell", case=x, features=["logic_cell"], detail=x["why"]))
+    if tier == "thorough" and not replay_file:
+        from .. import apalache
+        o.extra["apalache"] = [apalache.inductive("PdkInd", None, "NoError")]      # the registry invariant, for any number of operations
     o.traces = len(hists) + len(cases)
     o.evaluations = sum(len(t) for t in rtraces) + len(cases) + len(cres)
     o.distinct_nontrivial = nt
